@@ -185,7 +185,11 @@ def build(node, env=None, path='r'):
         pred = progs.f_pred_int if node.get('int') else progs.f_pred
         return done(ds.filter(env.fn(path, functools.partial(pred, node['m'], node['r'])), lazy=node['lazy']))
     if op == 'slice':
-        return done(ds[make_form(node['form'])])
+        form = make_form(node['form'])
+        out = ds[form]
+        if isinstance(form, np.ndarray) and form.dtype != bool and form.size:
+            form[...] = 0  # the caller re-uses its index buffer afterwards: the selection must not follow it
+        return done(out)
     if op == 'shuffle_once':
         return done(ds.shuffle(False, rng=np.random.RandomState(node['seed'])))
     if op == 'sort':
